@@ -63,7 +63,11 @@ def run(tier, seed, flavour="plain", prop="C09"):
         "how often that was needed is reported; operations that copy components (Transpose, embedding constructors) must be exact",
         "Magnitude within 2 ulps of sqrt of the exact sum of squares",
         "inverse: presence decided exactly on integer matrices; |inverse*original - I| and |original*inverse - I| <= 16*kappa*eps_T "
-        "entrywise for kappa_inf <= 1e4 measured in binary128, the rest counted as skipped",
+        "entrywise for kappa_inf <= 1e4 measured in binary128, the rest counted as skipped; kappa does not see how close the two "
+        "smaller singular values are to each other (relative error of the determinant formula ~ eps*sigma1^2/(sigma2*sigma3)), so an "
+        "entry is also accepted within the a-priori forward error bound of adjugate/determinant evaluated in T (computed in "
+        "binary128 from sum|monomials|); real matrices whose determinant formula loses more than half of its value are skipped; "
+        "both events are counted in the evidence",
         "members that take Direction / PlanarDirection / Angle are defined in other headers and belong to C10 / C11",
     ]
     od = core.run_dir(prop, tier)
